@@ -1,7 +1,7 @@
-\* every transient id of <= 3 tokens over 10 tokens (L: a filler that brings the file name to 255 bytes) x 4 kinds
+\* every transient id of <= 3 tokens over 12 tokens x 4 kinds (.JSON and .Yaml are not extensions; L is a filler that brings the file name to 255 bytes)
 SPECIFICATION Spec
 CONSTANTS
-  IdAlphabet = {"a", "/", ".", "..", ".json", ".yaml", "_", " ", "U", "L"}
+  IdAlphabet = {"a", "/", ".", "..", ".json", ".yaml", ".JSON", ".Yaml", "_", " ", "U", "L"}
   MaxLen = 3
   KindToks = {"plain", "dotted", "jsoncls", "yamlcls"}
   EMIT = TRUE
